@@ -200,6 +200,49 @@ func c10Scenarios() []c10Scenario {
 			}
 			return w
 		}},
+		{"seek-acks-ordered-predecessor", func(e *rig.Env, v int) *c10World {
+			// a seek that only acknowledges: the leased predecessor of a blocked
+			// same-key message is acked by the seek, which makes the successor
+			// deliverable - nothing is revived
+			mkTopic(e, T)
+			mkSub(e, &pubsubpb.Subscription{Name: sub(0), Topic: T, EnableMessageOrdering: true})
+			t0 := time.Now()
+			time.Sleep(time.Second)
+			must(e.Pub.Publish(e.Ctx, &pubsubpb.PublishRequest{Topic: T, Messages: []*pubsubpb.PubsubMessage{{Data: []byte(`1`), OrderingKey: "k"}}}))
+			ids := pullIDs(e, sub(0), 5)
+			must(e.Sub.Acknowledge(e.Ctx, &pubsubpb.AcknowledgeRequest{Subscription: sub(0), AckIds: ids}))
+			time.Sleep(time.Second) // (virtual time only moves when told to: the snapshot is taken later than the publish)
+			must(e.Sub.CreateSnapshot(e.Ctx, &pubsubpb.CreateSnapshotRequest{Name: "projects/p/snapshots/acked", Subscription: sub(0)}))
+			time.Sleep(time.Second)
+			// bring the first message back and lease it again
+			must(e.Sub.Seek(e.Ctx, &pubsubpb.SeekRequest{Subscription: sub(0), Target: &pubsubpb.SeekRequest_Time{Time: timestamppb.New(t0)}}))
+			if got := pullIDs(e, sub(0), 5); len(got) != 1 {
+				panic(fmt.Sprintf("expected the revived predecessor, got %d", len(got)))
+			}
+			time.Sleep(time.Second)
+			between := time.Now()
+			time.Sleep(time.Second)
+			must(e.Pub.Publish(e.Ctx, &pubsubpb.PublishRequest{Topic: T, Messages: []*pubsubpb.PubsubMessage{{Data: []byte(`2`), OrderingKey: "k"}}}))
+			if got := pullIDs(e, sub(0), 5); len(got) != 0 {
+				panic(fmt.Sprintf("the successor must be blocked, got %d", len(got)))
+			}
+			if v%2 == 0 {
+				actions.WakeAllInternal()
+			}
+			w := &c10World{e: e, waitSubs: []string{sub(0)}}
+			if (v/2)%2 == 0 {
+				w.writer = func(ctx context.Context) error {
+					_, err := e.Sub.Seek(ctx, &pubsubpb.SeekRequest{Subscription: sub(0), Target: &pubsubpb.SeekRequest_Snapshot{Snapshot: "projects/p/snapshots/acked"}})
+					return err
+				}
+			} else {
+				w.writer = func(ctx context.Context) error {
+					_, err := e.Sub.Seek(ctx, &pubsubpb.SeekRequest{Subscription: sub(0), Target: &pubsubpb.SeekRequest_Time{Time: timestamppb.New(between)}})
+					return err
+				}
+			}
+			return w
+		}},
 	}
 }
 
